@@ -8,7 +8,7 @@ CF = ['-DURCU_VERIF_WFCQ_ADAPT_ATTEMPTS=2']
 
 def ob(name, scen, deq, threads, R, tso=0, desc='', wit=None, unwind=3, timeout=900, pre=None):
     return conc(name, 'c10_wfcq.c', threads, R, cflags=['-DSCEN=%d' % scen, '-DDEQ=%d' % deq] + CF, tso=tso, unwind=unwind,
-                desc=desc, wit=wit, timeout=timeout, **({'pre': pre} if pre else {}),
+                desc=desc, wit=wit, timeout=timeout, extra={'mem_gb': 8}, **({'pre': pre} if pre else {}),
                 solo_order=[i + 1 for i, f in enumerate(threads)] + [i + 1 for i, f in enumerate(threads) if f.startswith('c')])
 
 
